@@ -11,7 +11,9 @@
      read     ( entry reqs frames specs )-> ( verdict ... )
      extract  ( objs so se spec )        -> ( write_err ) | ( miss ) | ( panic ) | ( hit so se ( f ... ) )
    objs = ( (name mode content frame [optional present]) ... ), so/se = ( content frame ), frames = ( (start len isempty) ... )
-   verdict = 0 | ( so se r ... ) ; so,se = 0 | 2 | ( tok ) ; r = 0 error | 1 absent | 2 panic | ( mode tok ) ; tok = e | index *)
+   verdict = 0 | ( so se r ... ) ; so,se = 0 | 2 | ( tok ) ; r = 0 error | 1 absent | 2 panic | ( mode tok ) ; tok = e | index
+   0 and 1 stand for an error of the class DecompressionFailure (the only class the model has); the harness prints 3 for
+   an error of any other type and ( fatal ) when extract_objects fails with one — the model never does *)
 From Coq Require Import List NArith Bool.
 From Coq Require String.
 Import String.StringSyntax.
